@@ -40,6 +40,12 @@ pub struct OutputSet(pub Vec<(String, Vec<u8>)>);
 
 /// run typeshare on a tree; returns the output files (relative name -> bytes) or the failing run
 pub fn generate(tree_root: &std::path::Path, out_root: &std::path::Path, lang: Lang, folder: bool, env: &[(String, String)]) -> Result<OutputSet, cli::CliRun> {
+    generate_from(&[tree_root.to_path_buf()], out_root, lang, folder, env)
+}
+
+/// the same with several input directories on the command line (they may overlap)
+pub fn generate_from(inputs: &[std::path::PathBuf], out_root: &std::path::Path, lang: Lang, folder: bool, env: &[(String, String)]) -> Result<OutputSet, cli::CliRun> {
+    let tree_root = inputs[0].as_path();
     let _ = std::fs::remove_dir_all(out_root);
     std::fs::create_dir_all(out_root).unwrap();
     let cfg = cfg_for_cli();
@@ -51,7 +57,9 @@ pub fn generate(tree_root: &std::path::Path, out_root: &std::path::Path, lang: L
         args.push("-o".into());
         args.push(out_root.join(format!("out.{}", lang.ext())).to_string_lossy().into_owned());
     }
-    args.push(tree_root.to_string_lossy().into_owned());
+    for i in inputs {
+        args.push(i.to_string_lossy().into_owned());
+    }
     let r = cli::run(&args, tree_root.parent().unwrap_or(tree_root), env, Duration::from_secs(20));
     if !r.ok() {
         return Err(r);
@@ -236,6 +244,38 @@ impl SubCheck for C06 {
                 compare(&format!("re-split #{k} ({} files)", alt.files.len()), "split-dependent", &[], &alt_tree, w, &mut out);
             }
         }
+        // 5. overlapping input roots: a file reached twice is handled the same way whatever thread receives it
+        {
+            let first_crate = wsx.files.first().map(|f| tree.join(&f.crate_dir));
+            if let Some(sub) = first_crate {
+                let inputs = vec![tree.clone(), sub, tree.clone()];
+                let one = vec![("TYPESHARE_VERIF_THREADS".to_string(), "1".to_string())];
+                if let Ok(b2) = generate_from(&inputs, &root.join("outO"), lang, case.folder_mode, &one) {
+                    if counting {
+                        run.label(&format!("c06/overlapping-roots/{}", lang.short()));
+                    }
+                    for t in [2, 3, 4, 8, 16, 0, 0] {
+                        runs += 1;
+                        let env: Vec<(String, String)> = if t == 0 { vec![] } else { vec![("TYPESHARE_VERIF_THREADS".to_string(), t.to_string())] };
+                        match generate_from(&inputs, &root.join("outP"), lang, case.folder_mode, &env) {
+                            Ok(o) => {
+                                if o.0 != b2.0 {
+                                    out.push(Violation::new(
+                                        format!("{}/{}/overlapping-roots/thread-count-dependent", mode, lang.short()),
+                                        format!("{} {} mode: with overlapping input directories the output under {} differs from the 1-thread run", lang.name(), mode, if t == 0 { "the default thread count".to_string() } else { format!("{t} walker threads") }),
+                                    ));
+                                    break;
+                                }
+                            }
+                            Err(r) => {
+                                out.push(Violation::new(format!("{}/{}/overlapping-roots/run-failed", mode, lang.short()), format!("{} {} mode: overlapping input directories: run failed (exit {:?}) while the 1-thread run succeeded", lang.name(), mode, r.code)));
+                                break;
+                            }
+                        }
+                    }
+                }
+            }
+        }
         if counting {
             run.label_n("c06/process-runs", runs + 1);
         }
@@ -251,7 +291,7 @@ impl SubCheck for C06 {
 }
 
 pub fn run(run: &Run) {
-    run.set_rule("trees of 2-8 files in 1-4 crates holding 3-12 uniquely named items (structs, newtypes, unit structs, unit and tagged enums, aliases, consts) with serde renames; one language and one mode (single file / folder) per tree. Metamorphic oracle, compared byte for byte with a baseline run: (1) every arrival order of the per-file results at the collector (all n! for n <= 5 files, quick; n <= 6 thorough; 120/720 sampled beyond) via the hook; (2) 1,2,3,4,8,16 walker threads via the hook; (3) repeated unhooked processes (fresh hash seeds); (4) single-file mode: the same items re-split over other files and directories. Non-trivial = >= 3 producing files and >= 2 item kinds, or consts in >= 2 files; distinct by (tree, language, mode).");
+    run.set_rule("trees of 2-8 files in 1-4 crates holding 3-12 uniquely named items (structs, newtypes, unit structs, unit and tagged enums, aliases, consts) with serde renames; one language and one mode (single file / folder) per tree. Metamorphic oracle, compared byte for byte with a baseline run: (1) every arrival order of the per-file results at the collector (all n! for n <= 5 files, quick; n <= 6 thorough; 120/720 sampled beyond) via the hook; (2) 1,2,3,4,8,16 walker threads via the hook; (3) repeated unhooked processes (fresh hash seeds); (4) single-file mode: the same items re-split over other files and directories; (5) overlapping input directories on the command line (a file reached more than once): 2-16 walker threads and the default against the 1-thread run. Non-trivial = >= 3 producing files and >= 2 item kinds, or consts in >= 2 files; distinct by (tree, language, mode).");
     run.assume("hash-seed dependence is sampled (6 / 24 repeats per tree): a two-way seed-dependent choice escapes n repeats with probability 2^-n");
     run.assume("the verif-hooks feature only reorders results already produced / sets the walker's thread count; consts are left out for Kotlin/Swift/Scala, which cannot generate them (recorded under C07 / C03)");
     if !cli::bin_available() {
